@@ -314,6 +314,14 @@ fn render(m: &Model, rng: &mut Rng) -> String {
         for (i, t) in m.gpayloads.iter().enumerate() {
             s.push_str(&format!("    Gpay{i}({}),\n", t.render(rng, true)));
         }
+        // a struct variant whose fields mention the parameters in the reverse of their declaration order: the helper type a
+        // backend derives for it and the place that uses the helper have to agree on the parameter order
+        let rev: Vec<&String> = m.gparams.iter().rev().collect();
+        s.push_str("    Grec {\n");
+        for (i, p) in rev.iter().enumerate() {
+            s.push_str(&format!("        g{i}: {},\n", if i % 2 == 0 { format!("Vec<{p}>") } else { p.to_string() }));
+        }
+        s.push_str("    },\n");
         s.push_str("}\n\n");
     }
     s
@@ -467,6 +475,33 @@ fn judge(case: &Case<Model>, rep: &mut Report) {
                     if let Payload::Newtype(x) = &v.payload {
                         let top = matches!(case.lang, LangId::Ts | LangId::Python) && (v.markers.contains("?") || v.markers.contains("Optional"));
                         check("generic-payload", t, x, &m.gparams, top, rep);
+                    }
+                }
+                // the struct variant: where a backend derives a generic helper type, the arguments at the use site must be
+                // the helper's own parameters, in the helper's order (the fields inside the helper are typed with them)
+                // (Go and Python have no generic form of a tagged enum at all - the recorded finding above - so there is no use
+                // site carrying arguments to compare)
+                if let Some(v) = c.variants.iter().find(|v| v.ident.to_lowercase().contains("grec")).filter(|_| !matches!(case.lang, LangId::Go | LangId::Python)) {
+                    if let Payload::Newtype(TypeExpr::Name(hname, args)) = &v.payload {
+                        if let Some(h) = file.defs.iter().find(|d| d.name == *hname && d.kind == DefKind::Struct) {
+                            let used: Vec<String> = args.iter().filter_map(|a| if let TypeExpr::Name(n, aa) = a { if aa.is_empty() { Some(n.clone()) } else { None } } else { None }).collect();
+                            rep.eval(1);
+                            rep.count("struct_variant_helper_parameter_lists_compared", 1);
+                            if used.len() == args.len() && used != h.generics {
+                                rep.violate(format!("C05|{lname}|generic-arguments-permuted|struct-variant-helper"), format!("{hname} declares <{}> but the variant passes <{}>", h.generics.join(", "), used.join(", ")), case.detail(json!({"helper": hname, "declared": h.generics, "passed": used})));
+                            }
+                            // and the helper's fields follow the source: field i mentions reversed parameter i
+                            let rev: Vec<&String> = m.gparams.iter().rev().collect();
+                            for (i, f) in h.fields.iter().enumerate() {
+                                if let Some(want) = rev.get(i) {
+                                    let mut names = vec![];
+                                    f.ty.names(&mut names);
+                                    if !names.iter().any(|n| n == want) {
+                                        rep.violate(format!("C05|{lname}|generic-parameter-changed|struct-variant-helper-field"), format!("{hname}.{}: {} does not mention parameter {want}", f.ident, f.ty.show()), case.detail(json!({"helper": hname, "field": f.ident})));
+                                    }
+                                }
+                            }
+                        }
                     }
                 }
             }
